@@ -9,3 +9,8 @@ mod utils;
 pub use engine::BRC20ProgEngine;
 pub use precompiles::validate_bitcoin_rpc_status;
 pub use utils::{get_evm_address_from_pkscript, TxInfo};
+
+#[cfg(brc20_prog_verif)]
+pub mod verif_precompiles {
+    pub use super::precompiles::*;
+}
